@@ -36,7 +36,7 @@ import annotate            # noqa: E402
 from extract import Lost   # noqa: E402
 
 VERUS_FLAGS = ["--triggers-mode", "silent", "--rlimit", "50", "--output-json", "--time-expanded", "--multiple-errors", "4"]
-CLAIMED = ["C01", "C02", "C03", "C06", "C08", "C12", "C16"]
+CLAIMED = ["C01", "C02", "C03", "C06", "C07", "C08", "C12", "C16"]
 
 
 def sh(cmd, **kw):
@@ -95,7 +95,8 @@ def build_driver():
 # ------------------------------------------------------------------------------------------------
 QUICK_MICRO = ["m03_star", "m05_opt", "m07_nullable_rule", "m11_deep", "e02_cond", "e04_uncond_creation",
                "r01_rename", "n02_marker_nested", "n04_marker_loop", "t02_return_cond", "p01_pred_alt",
-               "p06_assert", "p07_pred_nullable", "x07_mixed", "x08_call", "x13_marker", "q01_parts", "q02_parts_shared",
+               "p06_assert", "p07_pred_nullable", "x03_right1", "x04_right2", "x05_prefix", "x07_mixed", "x08_call", "x13_marker",
+               "q01_parts", "q02_parts_shared",
                "k01_noskip", "o03_choice_rule"]
 QUICK_SKEL = {"fe", "m03_star", "k01_noskip", "q01_parts", "o03_choice_rule", "ex_json"}
 QUICK_EX = ["calc", "json", "l", "toml"]
@@ -279,7 +280,12 @@ def run_verus(path, timeout):
 def verify_unit(unit, gen_text, timeout=1500):
     """-> result dict (cached)."""
     sc = [assemble.read(os.path.join(assemble.CONTRACTS, "skeleton.vspec"))]
-    key = sha(gen_text, tool_hash(), json.dumps(VERUS_FLAGS), "skel" if unit["skel"] else "noskel")
+    gpath = unit["src"] if unit["kind"] == "grammar" else os.path.join(REPO, "src/frontend/lelwel.llw")
+    try:
+        grammar_text = open(gpath).read()
+    except OSError:
+        grammar_text = ""
+    key = sha(gen_text, grammar_text, tool_hash(), json.dumps(VERUS_FLAGS), "skel" if unit["skel"] else "noskel")
     cpath = os.path.join(RESULTS, key + ".json")
     if os.path.exists(cpath):
         try:
@@ -299,7 +305,7 @@ def verify_unit(unit, gen_text, timeout=1500):
     texts = []
     try:
         for i in range(nsh):
-            rep = {}
+            rep = {"grammar_text": grammar_text}
             t = assemble.build(gen_text, sc, annotate=annotate.annotate, report=rep, shard=(i, nsh, unit["skel"] and i == 0))
             texts.append((t, rep))
     except Lost as e:
